@@ -193,6 +193,19 @@ func (f *Frame) call(in ssa.Instruction, cc *ssa.CallCommon, st *State) []Term {
 	}
 	if blk == nil && inModule(callee) && f.depth < 3 && smallLeaf(callee) && (samePackage(callee, f.topFrame().fn) || callFree(callee)) && !c.eng.isRecursive(callee) {
 		if res, ok := f.tryInline(callee, args, st, in); ok {
+			if !st.dead() {
+				short := callee.Name()
+				if callee.Signature.Recv() != nil {
+					rt := callee.Signature.Recv().Type()
+					if p, ok := rt.(*types.Pointer); ok {
+						rt = p.Elem()
+					}
+					if n, ok := rt.(*types.Named); ok {
+						short = n.Obj().Name() + "." + callee.Name()
+					}
+				}
+				f.recordCall(st, cc, res, short)
+			}
 			return res
 		}
 	}
@@ -323,6 +336,11 @@ func (sub *Frame) specResult(fn *ssa.Function) []Term {
 // specCall: calls inside specification code.
 func (f *Frame) specCall(callee *ssa.Function, blk *Block, args [][]Term, st *State, in ssa.Instruction) []Term {
 	c := f.ctx
+	if !inModule(callee) {
+		// dependencies are not symbolically executed in specifications: an
+		// external function is an uninterpreted (deterministic) function
+		return f.externUF(callee, args)
+	}
 	if len(callee.Blocks) == 0 {
 		c.unsupported(f, "specification calls a function without body: "+callee.String())
 	}
@@ -1126,4 +1144,30 @@ func callFree(fn *ssa.Function) bool {
 		}
 	}
 	return true
+}
+
+// externUF: an external function used in a specification, as an uninterpreted function.
+func (f *Frame) externUF(fn *ssa.Function, args [][]Term) []Term {
+	c := f.ctx
+	c.note("assumed", "dependency function "+fn.String()+" used in specifications as an uninterpreted pure function")
+	name := "ext_" + smtSym(fn.String())
+	var flat []Term
+	var sorts []string
+	for _, a := range args {
+		for _, t := range a {
+			flat = append(flat, t)
+			sorts = append(sorts, string(t.Sort))
+		}
+	}
+	res := layout(fn.Signature.Results())
+	out := make([]Term, len(res))
+	for k, l := range res {
+		n := fmt.Sprintf("%s_%d", name, k)
+		if !c.declared[n] {
+			c.declared[n] = true
+			c.emit(fmt.Sprintf("(declare-fun %s (%s) %s)", n, strings.Join(sorts, " "), l.Sort))
+		}
+		out[k] = app(l.Sort, n, flat...)
+	}
+	return out
 }
